@@ -601,6 +601,11 @@ func (rpi *RetentionPolicyInfo) UnmarshalBinary(data []byte) error {
 }
 
 func (rpi *RetentionPolicyInfo) MatchMeasurements(ms influxql.Measurements, ret map[string]*MeasurementInfo) {
+	if rpi.MarkDeleted {
+		// DROP RETENTION POLICY has been acknowledged: the listings must not see the policy's measurements any more
+		// (selects are refused by GetRetentionPolicy; the stores delete the data a moment later)
+		return
+	}
 	rpi.EachMeasurements(func(mi *MeasurementInfo) {
 		if mi.MarkDeleted {
 			return
